@@ -83,6 +83,8 @@ func (e *eventRingBuffer) GetRecentEvents(count uint64) []*si.EventRecord {
 	} else {
 		startID = lastID - count + 1
 	}
+	// never start before the oldest event still available
+	startID = max(startID, e.getLowestID())
 
 	history, _, _ := e.getEventsFromID(startID, count)
 	return history
